@@ -195,6 +195,14 @@ func init() {
 		if r.Err != nil {
 			return ""
 		}
+		if tok == "" {
+			// the repository's own tests pin UnmarshalJSON(nil) as a no-op
+			// (like null); encoding/json never passes empty input
+			if Hex(before) != Hex(after) {
+				return "UnmarshalJSON of empty input changed the receiver"
+			}
+			return ""
+		}
 		lit := ref.ParseLiteral(tok, ref.LitOpts{NoUnderscore: true, NoSpecial: true})
 		if lit.Status == ref.LitInvalid {
 			return fmt.Sprintf("UnmarshalJSON(%.60q) (not a number) returned no error; receiver now %s", tok, NumOf(after))
